@@ -99,6 +99,17 @@ Theorem C12_retry_restarts_from_the_request : forall (R : cring) m small skip ii
 Proof. exact retry_some. Qed.
 Print Assumptions C12_retry_restarts_from_the_request.
 
+(* the inversion pre-processing is applied once, outside the retry loop: the returned list comes from ONE elimination
+   run on the pre-processed request preprocess(U), whatever the number of abandoned tries before it *)
+Theorem C12_every_try_runs_on_the_preprocessed_request : forall (R : cring) m small skip iib perm_on Os solve
+    hinv_b vinv_b wp v h tries (U : mat R) s c s',
+  decomposition m small skip iib perm_on Os solve hinv_b vinv_b wp v h tries U s = (Some c, s') ->
+  exists l u s0 s1,
+    triangle m small skip iib perm_on Os solve wp (preprocess m v h U) s0 = (Some (l, u), s1) /\
+    c = (if v || h then cinverse m hinv_b vinv_b v h l else l).
+Proof. exact decomposition_runs_on_preprocessed. Qed.
+Print Assumptions C12_every_try_runs_on_the_preprocessed_request.
+
 (* "None" is outside the soundness claim and comes only from the solver: the completeness sentence ("a universal
    block is found within the configured retries") is a statement about the numerical oracle alone *)
 Theorem C12_none_only_from_solver : forall (R : cring) m small skip iib perm_on Os solve hinv_b vinv_b
